@@ -139,9 +139,22 @@ def run():
         third = docs.mutate(data, r)
         if not isinstance(third, (dict, list)) or third == data or docs.has_twins(third) and False:
             third = [data, "x"]
-        third = _no_null(third)
-        paths = {f: mats.file(write(f, data), _cli.EXT[f], "d%d" % i) for f in FORMATS}
-        tpaths = {f: mats.file(write(f, third), _cli.EXT[f], "t%d" % i) for f in FORMATS}
+        # every fourth document contains nulls (and an empty container): a plist file cannot hold null, so these are
+        # compared across JSON, JSON5 and YAML only
+        with_null = i % 4 == 3
+        fmts = [f for f in FORMATS if not (with_null and f == "plist")]
+        if with_null:
+            if isinstance(data, dict):
+                data = dict(data, nul=None, e=[], inner={"n": None})
+            else:
+                data = list(data) + [None, {"n": None, "e": {}}]
+            third = docs.mutate(data, r)
+            if not isinstance(third, (dict, list)) or third == data:
+                third = [data, None]
+        else:
+            third = _no_null(third)
+        paths = {f: mats.file(write(f, data), _cli.EXT[f], "d%d" % i) for f in fmts}
+        tpaths = {f: mats.file(write(f, third), _cli.EXT[f], "t%d" % i) for f in fmts}
         opts = r.choice(docs.ALL_OPTS)
         jobs.append((paths, tpaths, opts))
         datas.append({"data": data, "third": third, "opts": opts})
@@ -180,6 +193,8 @@ def run():
     for i, (paths, tpaths, opts) in enumerate(jobs[: (12 if t == "quick" else 100)]):
         for f1 in FORMATS:
             for f2 in FORMATS:
+                if f1 not in paths or f2 not in paths:
+                    continue
                 argv = [paths[f1], paths[f2], "--no-status", "--no-color"]
                 cli_jobs.append({"argv": argv, "from": paths[f1], "to": paths[f2], "cfg": _cli.base_cfg()})
                 cli_meta.append((i, f1, f2))
